@@ -497,11 +497,11 @@ def specMouseM (m : Mon) (dr : Drag) (ev : Ev) (items : List Item) : Mon × Drag
       (m, rest)
     else (m, rest)
   -- the terminal's next binding hears of the event exactly when no window claimed it
-  let (unh, rest) := match rest with
-    | .unhandled :: r => (true, r)
-    | r => (false, r)
-  let m := if unh = handled.isNone then m else m.fail "the event must reach the terminal's next binding exactly when no window claimed it"
-  (m, dr, rest)
+  -- (a `T` that follows a claimed event is left over: it belongs to the next event of the operation, or to none)
+  if handled.isSome then (m, dr, rest) else
+  match rest with
+  | .unhandled :: r => (m, dr, r)
+  | r => (m.fail "the event must reach the terminal's next binding exactly when no window claimed it", dr, r)
 
 /-- Nothing but what the events account for may have been delivered. -/
 def noMore (m : Mon) (rest : List Item) : Mon :=
